@@ -234,3 +234,17 @@ class PrefixReport:
         if name in ("explanation", "assumptions", "exhaustive"):
             return
         setattr(self._o, name, value)
+
+
+def wants(rep, rule_prefix):
+    """does this report keep instances of rules starting with rule_prefix (False lets a module skip work whose results a
+    reusing property would drop anyway)"""
+    r = rep
+    while isinstance(r, PrefixReport):
+        only = object.__getattribute__(r, "_only")
+        if only is not None and not any(x.startswith(rule_prefix) or rule_prefix.startswith(x) for x in only):
+            return False
+        r = object.__getattribute__(r, "_o")
+        # the outer report sees the renamed rule; an outer filter applies to the new name, which we cannot know here: keep
+        break
+    return True
